@@ -493,8 +493,10 @@ def main(prop, argv=None):
     seed = int(os.environ.get('VERIF_SEED', '0') or 0)
     t0 = time.time()
     pid = prop.id
-    os.makedirs(os.path.join(VERIF, 'evidence'), exist_ok=True)
-    os.makedirs(os.path.join(VERIF, 'replays'), exist_ok=True)
+    # development aid (seeded-change runs in parallel with ordinary runs): evidence and replays go elsewhere when asked
+    OUT = os.environ.get('VERIF_SCRATCH_OUT') or VERIF
+    os.makedirs(os.path.join(OUT, 'evidence'), exist_ok=True)
+    os.makedirs(os.path.join(OUT, 'replays'), exist_ok=True)
 
     try:
         prop.setup()
@@ -546,7 +548,7 @@ def main(prop, argv=None):
 
     def write_replay(tag, flist, note):
         path = os.path.join('replays', '%s-%d-%s.json' % (pid, seed, tag))
-        with open(os.path.join(VERIF, path), 'w') as fh:
+        with open(os.path.join(OUT, path), 'w') as fh:
             json.dump({'property': pid, 'seed': seed, 'tier': args.tier, 'note': note,
                        'rerun': './check %s --replay %s' % (pid, path),
                        'failures': [f.to_json() for f in flist[:50]]}, fh, indent=1, default=repr)
@@ -597,7 +599,7 @@ def main(prop, argv=None):
     cov.update(extra_cov)
     ev = {'property_id': pid, 'tier': args.tier, 'seed': seed, 'level': prop.level, 'coverage': cov,
           'assumptions': list(prop.assumptions), 'wall_s': round(wall, 2), 'violations': violations}
-    with open(os.path.join(VERIF, 'evidence', pid + '.json'), 'w') as fh:
+    with open(os.path.join(OUT, 'evidence', pid + '.json'), 'w') as fh:
         json.dump(jsonable(ev), fh, indent=1, default=repr)
     print('%s tier=%s seed=%d cases=%d nontrivial=%d model_requests=%d obligations=%s discharged=%s '
           'mismatches=%d oracle_failures=%d wall=%.1fs' %
